@@ -162,3 +162,9 @@ def thorough(chk):
         chk.ob("C05.R1", W(f"NonnegMean.{name}"), "unregistered-sample-callable", ok,
                f"method `{name}` takes a sample but is not in the checker's estimator/bet registry; it must be "
                "predictable to be usable as one", abstract=txt)
+    used = nnm.used_callables(idx)
+    for role, allowed in (("estim", reg["estim"]), ("bet", reg["bet"]), ("test", reg["tests"])):
+        for name, origins in sorted(used[role].items()):
+            chk.ob("C05.R1", W(f"NonnegMean.{name}"), f"used-as-{role}", name in allowed,
+                   f"every callable handed over as `{role}=` anywhere in the repository (library, tests, example notebooks) is one of the "
+                   "registered ones whose non-anticipation is proved above", used_in=sorted(set(origins))[:6], count=len(origins))
